@@ -118,8 +118,8 @@ Print Assumptions C06_abmd_ratchet.
 (* histogramRestraint on M scalar values xs (grid points xi_g = lower + (g + 1/2) width, reference histogram refp):
    the energy is 1/2 (k M) sum_g (h(xi_g) - h0_g)^2 with h(xi) = 1/(M sqrt(2 pi sigma^2)) sum_i exp(-(xi - x_i)^2/(2 sigma^2))
    (hist_h), and the force on each value is MINUS THE DERIVATIVE of that energy with respect to that value.
-   NOTE the factor: the documented potential is 1/2 k INTEGRAL (h - h0)^2 dxi ~ 1/2 k width sum_g (...)^2; the code (and
-   hence this closed form) has k M in place of k width (recorded finding potential:histogram:energy-scale). *)
+   NOTE the factor k M: the manual used to give 1/2 k INTEGRAL (h - h0)^2 dxi ~ 1/2 k width sum_g (...)^2; its equation was
+   corrected to this sum (fix commit, finding potential:histogram:energy-scale). *)
 Theorem C06_histogram_restraint : forall (k sigma lower width : R) (refp pre post : list R) (x : R), (0 < sigma)%R ->
   let xs := pre ++ x :: post in
   hist_energy Rops k PI sigma lower width refp xs =
